@@ -22,15 +22,35 @@ theorem exec_other (ss : List (Assign V)) (e : Env V) (k : Nat) (h : k ∉ targe
     simp only [exec]
     rw [ih _ (by simpa [targets] using h.2), Env.set_other _ _ h.1]
 
-theorem runLags_other (ls : List (Nat × Nat)) (e : Env V) (k : Nat) (h : k ∉ ls.map (·.2)) :
-    runLags ls e k = e k := by
+theorem applyLags_other (src : Env V) (ls : List (Nat × Nat)) (e : Env V) (k : Nat) (h : k ∉ ls.map (·.2)) :
+    applyLags src ls e k = e k := by
   induction ls generalizing e with
   | nil => rfl
   | cons p ls ih =>
     obtain ⟨a, b⟩ := p
     simp only [List.map_cons, List.mem_cons, not_or] at h
-    simp only [runLags]
+    simp only [applyLags]
     rw [ih _ h.2, Env.set_other _ _ h.1]
+
+theorem runLags_other (ls : List (Nat × Nat)) (e : Env V) (k : Nat) (h : k ∉ ls.map (·.2)) :
+    runLags ls e k = e k := applyLags_other e ls e k h
+
+/-- with distinct targets every pair of the dictionary takes effect, whatever the listing order -/
+theorem applyLags_pair (src : Env V) (ls : List (Nat × Nat)) (e : Env V) (k v : Nat) (hm : (k, v) ∈ ls)
+    (hd : (ls.map (·.2)).Nodup) : applyLags src ls e v = src k := by
+  induction ls generalizing e with
+  | nil => simp at hm
+  | cons p ls ih =>
+    obtain ⟨a, b⟩ := p
+    simp only [List.map_cons, List.nodup_cons] at hd
+    simp only [applyLags]
+    simp only [List.mem_cons, Prod.mk.injEq] at hm
+    rcases hm with ⟨rfl, rfl⟩ | hm
+    · rw [applyLags_other _ _ _ _ hd.1]; simp
+    · exact ih _ hm hd.2
+
+theorem runLags_pair (lags : List (Nat × Nat)) (k v : Nat) (hm : (k, v) ∈ lags)
+    (hd : (lags.map (·.2)).Nodup) (e : Env V) : runLags lags e v = e k := applyLags_pair e lags e k v hm hd
 
 /-- columns written by a list of covariate models -/
 def covWrites (cs : List (Cov V)) : List Nat := cs.flatMap fun c => c.col :: targets c.recode
@@ -106,24 +126,6 @@ structure Num01 (V : Type) [NatCast V] [LT V] : Prop where
   ne : ((0 : Nat) : V) ≠ ((1 : Nat) : V)
   lt : ((0 : Nat) : V) < ((1 : Nat) : V)
   irr : ¬ ((0 : Nat) : V) < ((0 : Nat) : V)
-
-/-- the pair `(k, v)` of the lag dictionary is not disturbed by the other pairs: its source is not overwritten by
-    an earlier pair, its target not by a later one -/
-def LagOK (lags : List (Nat × Nat)) (k v : Nat) : Prop :=
-  ∃ l1 l2, lags = l1 ++ (k, v) :: l2 ∧ k ∉ l1.map (·.2) ∧ v ∉ l2.map (·.2)
-
-theorem runLags_pair (lags : List (Nat × Nat)) (k v : Nat) (h : LagOK lags k v) (e : Env V) :
-    runLags lags e v = e k := by
-  obtain ⟨l1, l2, rfl, hk, hv⟩ := h
-  induction l1 generalizing e with
-  | nil =>
-    simp only [List.nil_append, runLags]
-    rw [runLags_other _ _ _ hv]; simp
-  | cons p l1 ih =>
-    obtain ⟨a, b⟩ := p
-    simp only [List.map_cons, List.mem_cons, not_or] at hk
-    simp only [List.cons_append, runLags]
-    rw [ih _ hk.2, Env.set_other _ _ hk.1]
 
 section step
 variable {cfg : Config V} (hs : Safe cfg)
@@ -402,7 +404,7 @@ def cfg : Config Int :=
 def cfgAll : Config Int := { cfg with plan := .all }
 def cfgNone : Config Int := { cfg with plan := .none }
 def cfgNat : Config Int := { cfg with plan := .natural }
-/-- the same with the first-order lag listed before the second-order one -/
+/-- the same chain with the first-order lag listed before the second-order one -/
 def cfgFwd : Config Int := { cfgNat with lags := [(0, 8), (8, 9), (5, 10)] }
 def base : Env Int := ⟨fun _ => 0⟩
 /-- L draws 0,1,0,…; exposure draws 1,0,0; outcome 0,0,1; uncensored 1,1,1 -/
